@@ -4,7 +4,7 @@ use crate::mc::*;
 use crate::Ctx;
 use rrtk::*;
 
-const TS: [i64; 15] = [i64::MIN, i64::MIN + 1, -1_500_000_007, -1_500_000_000, -2, -1, 0, 1, 2, 1_500_000_000, 1_500_000_007, (1 << 53), (1 << 53) + 1, i64::MAX - 1, i64::MAX];
+pub const TS: [i64; 15] = [i64::MIN, i64::MIN + 1, -1_500_000_007, -1_500_000_000, -2, -1, 0, 1, 2, 1_500_000_000, 1_500_000_007, (1 << 53), (1 << 53) + 1, i64::MAX - 1, i64::MAX];
 
 fn same<T: Payload>(a: &T, b: &T) -> bool {
     let (x, y) = (a.bits(), b.bits());
